@@ -170,10 +170,16 @@ struct Program {
     complete_at: usize,
     /// see `Gate`
     gate: bool,
+    /// `Some(kind)`: the run-on-wake scenario (`inline_body`) instead of the A/B program;
+    /// kind = r (wake_by_ref) | w (wake by value) | x (clone, wake the clone, drop the original)
+    inline: Option<char>,
 }
 
 impl Program {
     fn name(&self) -> String {
+        if let Some(k) = self.inline {
+            return format!("inline={k}");
+        }
         format!(
             "b={}:a={}:end={}:fut={}:gate={}",
             self.b.iter().collect::<String>(),
@@ -189,7 +195,7 @@ impl Program {
     }
 
     fn parse(s: &str) -> Program {
-        let mut p = Program { b: vec![], a: vec![], end: End::Keep, complete_at: 0, gate: false };
+        let mut p = Program { b: vec![], a: vec![], end: End::Keep, complete_at: 0, gate: false, inline: None };
         for part in s.split(':') {
             let (k, v) = part.split_once('=').expect("k=v");
             match k {
@@ -204,6 +210,7 @@ impl Program {
                 }
                 "fut" => p.complete_at = if v == "second" { 2 } else { 0 },
                 "gate" => p.gate = v == "1",
+                "inline" => p.inline = v.chars().next(),
                 _ => panic!("bad program part {part}"),
             }
         }
@@ -215,7 +222,70 @@ fn pool_live(base: u64) -> i64 {
     FutureDeque::<Out>::verif_waker_meta_pool_len() as i64 - base as i64
 }
 
+// ---- run-on-wake scenario ----------------------------------------------------------------------
+// The deque's task is driven by an executor whose waker polls the task immediately ("run on
+// wake"), unless the task is already being polled further up the stack. A wake of a contained
+// future's waker, issued outside any poll, must then lead to that future being polled again from
+// inside the wake call. If the deque calls the task waker while it holds its parent-waker lock,
+// the inline poll blocks on that lock: loom reports the deadlock.
+static INLINE_DQ: StdMutex<Option<std::sync::Arc<StdMutex<FutureDeque<Out>>>>> = StdMutex::new(None);
+
+static IVT: RawWakerVTable = RawWakerVTable::new(|d| RawWaker::new(d, &IVT), |_| inline_run(), |_| inline_run(), |_| {});
+
+fn inline_parent() -> Waker {
+    // SAFETY: the vtable functions do not use the data pointer.
+    unsafe { Waker::from_raw(RawWaker::new(std::ptr::null(), &IVT)) }
+}
+
+fn inline_run() {
+    let Some(dq) = INLINE_DQ.lock().unwrap_or_else(|p| p.into_inner()).clone() else { return };
+    // already being polled further up the stack: that poll loop will come round again
+    let Ok(mut g) = dq.try_lock() else { return };
+    let w = inline_parent();
+    let _ = g.poll(&Context::from_waker(&w));
+}
+
+fn inline_body(kind: char) -> String {
+    reset();
+    let base = FutureDeque::<Out>::verif_waker_meta_pool_len();
+    let dq = std::sync::Arc::new(StdMutex::new(FutureDeque::<Out>::new()));
+    *INLINE_DQ.lock().unwrap_or_else(|p| p.into_inner()) = Some(dq.clone());
+    {
+        let mut g = dq.lock().unwrap();
+        g.push_back(Fut { complete_at: 2 });
+        let w = inline_parent();
+        let first = g.poll(&Context::from_waker(&w));
+        oracle(first.is_pending(), "harness", || "first poll not pending".into());
+    }
+    let handed = CAPTURED.lock().unwrap().take().expect("future captured its waker");
+    match kind {
+        'r' => {
+            handed.wake_by_ref();
+            drop(handed);
+        }
+        'w' => handed.wake(),
+        _ => {
+            let c = handed.clone();
+            c.wake();
+            drop(handed);
+        }
+    }
+    oracle(POLLS_STARTED.load(O::SeqCst) == 2 && COMPLETED.load(O::SeqCst), "inline_parent:not_repolled", || {
+        format!("the run-on-wake task waker was {} but the future was polled {} time(s)", if kind == 'r' { "woken by reference" } else { "woken" }, POLLS_STARTED.load(O::SeqCst))
+    });
+    *INLINE_DQ.lock().unwrap_or_else(|p| p.into_inner()) = None;
+    drop(dq);
+    oracle(FUT_DROPS.load(O::SeqCst) == 1 && OUT_DROPS.load(O::SeqCst) == 1, "drop_count", || {
+        format!("future dropped {} time(s), output {} time(s)", FUT_DROPS.load(O::SeqCst), OUT_DROPS.load(O::SeqCst))
+    });
+    oracle(pool_live(base) == 0, "meta_not_freed_exactly_once", || format!("waker-metadata pool is {} above its baseline after everything was dropped", pool_live(base)));
+    "inline: repolled from inside the wake".into()
+}
+
 fn model_body(p: &Program) -> String {
+    if let Some(k) = p.inline {
+        return inline_body(k);
+    }
     reset();
     let base = FutureDeque::<Out>::verif_waker_meta_pool_len();
     let mut dq = FutureDeque::<Out>::new();
@@ -439,15 +509,19 @@ fn programs() -> Vec<Program> {
                     if a.len() == 2 && b.len() > 2 {
                         continue;
                     }
-                    v.push(Program { b: b.clone(), a: a.clone(), end, complete_at, gate: false });
+                    v.push(Program { b: b.clone(), a: a.clone(), end, complete_at, gate: false, inline: None });
                     // Gate variant: one concurrent poll placed while B's first wake is cloning the
                     // parent waker (only meaningful if B wakes and the deque is kept).
                     if a.len() == 1 && end == End::Keep && complete_at == 0 && b.iter().any(|c| matches!(c, 'r' | 'w')) {
-                        v.push(Program { b: b.clone(), a: a.clone(), end, complete_at, gate: true });
+                        v.push(Program { b: b.clone(), a: a.clone(), end, complete_at, gate: true, inline: None });
                     }
                 }
             }
         }
+    }
+    // Run-on-wake executors: the task waker polls the task (the deque) right away.
+    for k in ['r', 'w', 'x'] {
+        v.push(Program { b: vec![], a: vec![], end: End::Keep, complete_at: 2, gate: false, inline: Some(k) });
     }
     v
 }
